@@ -1,0 +1,36 @@
+//go:build verif
+
+/*
+Copyright The Helm Authors.
+
+Licensed under the Apache License, Version 2.0 (the "License");
+you may not use this file except in compliance with the License.
+You may obtain a copy of the License at
+
+    http://www.apache.org/licenses/LICENSE-2.0
+
+Unless required by applicable law or agreed to in writing, software
+distributed under the License is distributed on an "AS IS" BASIS,
+WITHOUT WARRANTIES OR CONDITIONS OF ANY KIND, either express or implied.
+See the License for the specific language governing permissions and
+limitations under the License.
+*/
+
+package cmd
+
+import (
+	"io"
+
+	"github.com/spf13/cobra"
+
+	"helm.sh/helm/v4/pkg/action"
+)
+
+// VerifNewRootCmd builds the helm root command on top of a caller-supplied
+// action.Configuration (exactly what this package's own tests do through
+// newRootCmdWithConfig), so that the command line layer - flag parsing and the
+// way each command fills in its action - can be run against a simulated
+// cluster and release store. Compiled only with the "verif" build tag.
+func VerifNewRootCmd(actionConfig *action.Configuration, out io.Writer, args []string) (*cobra.Command, error) {
+	return newRootCmdWithConfig(actionConfig, out, args)
+}
